@@ -105,6 +105,9 @@ func VfC07Ping() {
 	}
 	// the signature / MAC area holds arbitrary bytes
 	vf.Havoc(f.AuthData())
+	if !mt.IsEncrypted() {
+		f.SetSequenceTime(vf.TimeSec()) // signed frames carry an arbitrary timestamp
+	}
 	// the source's signed-frame history: newest accepted timestamp so far (zero for a new session)
 	var latest time.Time
 	if known && vf.Bool() {
@@ -127,6 +130,9 @@ func VfC07Ping() {
 			// (which legitimately arrive over several peers) may repeat the newest timestamp
 			hop := mt == frame.RouterHopPing || mt == frame.RouterHopPingDeprecated
 			vf.Assert(frameTime.After(latest) || (hop && frameTime.Equal(latest)), "replayed-or-delayed-ping-handled")
+			if hop && frameTime.Equal(latest) {
+				vf.Reach("handled-hop-duplicate")
+			}
 			if known {
 				vf.Assert(v.KeyID == kPeerSign, "verified-under-other-key")
 				vf.Reach("handled-known")
